@@ -33,6 +33,7 @@ import (
 
 type listener struct {
 	openOnce, closeOnce sync.Once
+	mu                  sync.Mutex // serializes dup with close
 	fd                  int
 	addr                net.Addr
 	address, network    string
@@ -47,6 +48,13 @@ func (ln *listener) packPollAttachment(handler netpoll.PollEventHandler) *netpol
 }
 
 func (ln *listener) dup() (int, error) {
+	// Engine.Dup/DupListener may run while the engine is shutting down,
+	// never duplicate a descriptor number that has been closed already.
+	ln.mu.Lock()
+	defer ln.mu.Unlock()
+	if ln.fd < 0 {
+		return -1, errorx.ErrEngineInShutdown
+	}
 	return socket.Dup(ln.fd)
 }
 
@@ -71,6 +79,8 @@ func (ln *listener) open() (err error) {
 
 func (ln *listener) close() {
 	ln.closeOnce.Do(func() {
+		ln.mu.Lock()
+		defer ln.mu.Unlock()
 		if ln.fd > 0 {
 			logging.Error(os.NewSyscallError("close", unix.Close(ln.fd)))
 		}
